@@ -62,9 +62,9 @@ def run(ctx):
         return core.finish(ctx)
     if drv:
         quick = ctx.tier == "quick"
-        core.trace_component(ctx, "event", ["random", "--seed", ctx.seed, "--cases", 20 if quick else 100, "--progs", 150 if quick else 1000],
+        core.trace_component(ctx, "event", ["random", "--seed", ctx.seed, "--cases", 20 if quick else 100, "--progs", 150 if quick else 500],
                              label="event.random", oracle=event_oracle)
-        core.trace_component(ctx, "event", ["exhaustive", "--seed", ctx.seed + 1, "--cases", 2500 if quick else 60000, "--progs", 5 if quick else 16,
+        core.trace_component(ctx, "event", ["exhaustive", "--seed", ctx.seed + 1, "--cases", 2500 if quick else 20000, "--progs", 5 if quick else 16,
                                             "--preempt", 2 if quick else 3], label="event.exhaustive", oracle=event_oracle)
         # the real trigger back-ends (unix datagram socket, socket pair, semaphore) x both event states, sequentially:
         # the step-level model run to completion per call must answer like the real Event concepts
